@@ -328,6 +328,29 @@ func TestVerifC04Tok(t *testing.T) {
 				{"exp-zero", "lifetime-unbounded", func(c map[string]interface{}) { c["exp"] = 0 }},
 				{"exp-zero-all-early", "lifetime-unbounded", func(c map[string]interface{}) { c["exp"], c["iat"], c["nbf"] = 0, 0, 0 }},
 				{"exp-zero-negative-iat", "lifetime-unbounded", func(c map[string]interface{}) { c["exp"], c["iat"], c["nbf"] = 0, -10, -5 }},
+				{"exp-zero-dates-rfc3339-1969", "lifetime-unbounded", func(c map[string]interface{}) {
+					c["iat"], c["nbf"], c["exp"] = "1969-12-31T00:00:00Z", "1969-12-31T00:00:00Z", 0
+				}},
+				{"exp-epoch-rfc3339-dates-1969", "lifetime-unbounded", func(c map[string]interface{}) {
+					c["iat"], c["nbf"], c["exp"] = "1969-12-31T00:00:00Z", "1969-12-31T00:00:00Z", "1970-01-01T00:00:00Z"
+				}},
+				{"exp-epoch-rfc3339-offset", "lifetime-unbounded", func(c map[string]interface{}) {
+					c["iat"], c["nbf"], c["exp"] = "1969-06-01T12:00:00+02:00", "1969-06-01T12:00:00+02:00", "1970-01-01T01:00:00+01:00"
+				}},
+				{"exp-zero-nbf-rfc3339-1969-iat-number", "lifetime-unbounded", func(c map[string]interface{}) {
+					c["iat"], c["nbf"], c["exp"] = "1960-01-01T00:00:00Z", "1969-12-31T23:59:59Z", 0.0
+				}},
+				{"exp-half-second-dates-1969", "lifetime-unbounded", func(c map[string]interface{}) {
+					c["iat"], c["nbf"], c["exp"] = "1969-12-31T00:00:00Z", "1969-12-31T00:00:00Z", 0.5
+				}},
+				{"dates-rfc3339-valid", "valid", func(c map[string]interface{}) {
+					c["iat"], c["nbf"] = now.Add(-time.Minute).UTC().Format(time.RFC3339), now.Add(-time.Minute).UTC().Format(time.RFC3339)
+					c["exp"] = now.Add(time.Hour).UTC().Format(time.RFC3339)
+				}},
+				{"dates-rfc3339-expired", "expired", func(c map[string]interface{}) {
+					c["iat"], c["nbf"] = now.Add(-3*time.Hour).UTC().Format(time.RFC3339), now.Add(-3*time.Hour).UTC().Format(time.RFC3339)
+					c["exp"] = now.Add(-time.Hour).UTC().Format(time.RFC3339)
+				}},
 				{"exp-past", "expired", func(c map[string]interface{}) { c["exp"] = nowU - 30 }},
 				{"exp-now-minus-1", "expired", func(c map[string]interface{}) { c["exp"] = nowU - 1 }},
 				{"nbf-future", "not-yet-valid", func(c map[string]interface{}) { c["nbf"] = nowU + 600; c["exp"] = nowU + 3600 }},
